@@ -64,11 +64,13 @@ type TypeSpec struct {
 	LockInv map[string][]*Clause
 	Invs    []*Clause
 	Where   string
+	GhostFields map[string]string // ghost field name -> Go type expression
+	Pkg     *packages.Package
 }
 
 var clauseKeywords = map[string]bool{"property": true, "requires": true, "ensures": true, "modifies": true,
 	"panics": true, "loop": true, "invariant": true, "decreases": true, "trusted": true, "pure": true, "mode": true,
-	"nosafety": true, "holds": true, "nowrap": true, "exclusive": true, "inline": true, "forall": true, "guards": true, "lockinv": true, "ghost": true, "unroll": true}
+	"nosafety": true, "ghostfield": true, "holds": true, "nowrap": true, "exclusive": true, "inline": true, "forall": true, "guards": true, "lockinv": true, "ghost": true, "unroll": true}
 
 // rewriteImplies turns `A ==> B` (lowest precedence, right associative, split at
 // bracket depth 0) into `(!(A) || (B))`, recursively inside brackets too.
@@ -219,7 +221,7 @@ func (e *Engine) parseContractFile(p *packages.Package, f *ast.File, fname strin
 			e.lemmas = append(e.lemmas, curLemma)
 			cur, curType, curLoop = nil, nil, nil
 		case "type":
-			curType = &TypeSpec{Key: p.Name + "." + rest, Guards: map[string][]string{}, LockInv: map[string][]*Clause{}, Where: where}
+			curType = &TypeSpec{Key: p.Name + "." + rest, Guards: map[string][]string{}, LockInv: map[string][]*Clause{}, Where: where, GhostFields: map[string]string{}, Pkg: p}
 			e.typeSpecs[curType.Key] = curType
 			cur, curLemma, curLoop = nil, nil, nil
 		case "property":
@@ -324,6 +326,11 @@ func (e *Engine) parseContractFile(p *packages.Package, f *ast.File, fname strin
 		case "decreases":
 			if curLoop != nil {
 				curLoop.Decr = e.parseClause(rest, where)
+			}
+		case "ghostfield":
+			if curType != nil {
+				name, typ, _ := strings.Cut(rest, " ")
+				curType.GhostFields[name] = strings.TrimSpace(typ)
 			}
 		case "guards":
 			if curType != nil {
